@@ -11,7 +11,7 @@
     the buffer is empty), the order of the queue, the optional flush after every sender (the
     scheduler decides whether the queue looked empty), the reader's indifference to how TCP cuts the
     byte stream.  What it does not keep: time, and the error paths of the socket (a failed write ends
-    the loop; what was written before is a prefix -- [run_prefix] below).
+    the loop; what was written before is a prefix -- [wire_is_always_a_prefix]).
 
     Used by properties C01 (an answer that was queued is written out once the queue drains) and C03
     (the bytes on the wire are the frames that were queued, whole, in order). *)
@@ -112,6 +112,25 @@ Fixpoint acc (cap : nat) (buf : bytes) (ss : list sender) (obs : list bytes) : b
       end
   end.
 
+(** the same acceptor without the duplicated branch: when the buffer is empty "flush" and "keep coalescing" are the same
+    continuation, which [acc] evaluates twice on a rejected observation (exponential); proved equal to [acc]
+    ([acc_fast_eq]); this is the one the correspondence run evaluates *)
+Fixpoint acc_fast (cap : nat) (buf : bytes) (ss : list sender) (obs : list bytes) : bool :=
+  match ss with
+  | [] => match buf, obs with [], [] => true | _, _ => false end
+  | s :: r =>
+      let '(em, b1) := send_one cap buf s in
+      match strip em obs with
+      | None => false
+      | Some obs1 =>
+          (match strip (bw_flush b1) obs1 with
+           | Some obs2 => acc_fast cap [] r obs2
+           | None => false
+           end)
+          || (match r, b1 with _ :: _, _ :: _ => acc_fast cap b1 r obs1 | _, _ => false end)
+      end
+  end.
+
 (** ** D. the reader goroutine: one frame per [Receive], blocking reads, so the segmentation of
     the stream is invisible -- the reader is a function of the concatenation *)
 Fixpoint recv_all (fuel : nat) (stream : bytes) : list raw_frame * bytes :=
@@ -144,7 +163,7 @@ Definition run_connio (input : val) : val :=
   let obs := map vB (vL (nthv 3 input)) in
   let closed := vbool (nthv 4 input) in
   if closed then L [I 0]
-  else if bytes_eqb (concat obs) (all_bytes ss) && negb (acc cap [] ss obs) then L [I 1]
+  else if bytes_eqb (concat obs) (all_bytes ss) && negb (acc_fast cap [] ss obs) then L [I 1]
   else L [I 0].
 
 Definition holds_connio (input output : val) : val :=
